@@ -1,5 +1,9 @@
 """C02 - storage location depends only on what goes into the computation."""
 import copy
+import json
+import os
+import subprocess
+import sys
 
 from ..core import Prop, Suite
 from ..coqlit import cpair
@@ -26,11 +30,47 @@ def shuffle_value(rng, v):
     return v
 
 
+def shuffle_object_args(rng, v, changed):
+    """permute mapping keys INSIDE the arguments of parameter objects (and the keyword order of instantiated ones)"""
+    if isinstance(v, list):
+        return [shuffle_object_args(rng, x, changed) for x in v]
+    if isinstance(v, dict):
+        if '__auto__' in v or '__inst__' in v:
+            o = copy.deepcopy(v)
+            for field in ('args', 'kwargs'):
+                if isinstance(o.get(field), dict):
+                    new = {k: shuffle_value(rng, x) for k, x in o[field].items()}
+                    if field == 'kwargs':
+                        new = shuffle_dict(rng, new)
+                    if json.dumps(new) != json.dumps(o[field]):
+                        changed.append(1)
+                    o[field] = new
+                elif isinstance(o.get(field), list):
+                    new = [shuffle_value(rng, x) for x in o[field]]
+                    if json.dumps(new) != json.dumps(o[field]):
+                        changed.append(1)
+                    o[field] = new
+            return o
+        if any(k.startswith('__') for k in v):
+            return v
+        return {k: shuffle_object_args(rng, x, changed) for k, x in v.items()}
+    return v
+
+
 def rewrite_case(rng, case):
     """A computation-preserving rewriting of a configuration; returns (new case, moves, rename)."""
     c = copy.deepcopy(case)
     moves = []
     prefix = ''
+    # 0. (alone, so that nothing else hides behind it) mapping keys inside the arguments of parameter objects
+    if rng.random() < 0.2:
+        changed = []
+        c['files'] = {f: shuffle_object_args(rng, doc, changed) for f, doc in c['files'].items()}
+        if 'data' in c['base']:
+            c['base'] = {'name': c['base']['name'], 'data': shuffle_object_args(rng, c['base']['data'], changed)}
+        if changed:
+            return c, ['permute-object-args'], prefix
+        c = copy.deepcopy(case)
     # 1. rename / move config files
     if c['files'] and rng.random() < 0.6:
         ren = {f: f'moved/{i}_' + f.split('/')[-1] for i, f in enumerate(c['files'])}
@@ -138,6 +178,15 @@ class Rewrites(Suite):
              '(render_build (build sha_key (fst (fst c)) (snd (fst c)) [] []), '
              'render_build (build sha_key (fst (snd c)) (snd (snd c)) [] [])))')
 
+    def corpus(self):
+        from ..suites_chain import K, P
+        cls = [dict(K(0, 'Src', params=[P('sel')]), name='src'), dict(K(1, 'Dst', meta_inputs=[{'cls': 0}]), name='dst')]
+        mk = lambda sel: dict(classes=cls, files={}, context=None, base={'name': 'm', 'data': {'tasks': ['@M.*'], 'sel': sel}})
+        auto = lambda d: {'__auto__': 'AutoA', 'args': {'a': d, 'b': 2}}
+        inst = lambda kw: {'__inst__': 'Plain', 'args': [1], 'kwargs': kw}
+        return [dict(orig=mk(inst({'k': 1, 'a': 2})), rewr=mk(inst({'a': 2, 'k': 1})), moves=['permute-object-args'], prefix=''),
+                dict(orig=mk({'k': {'z': 1, 'b': 'q'}}), rewr=mk({'k': {'b': 'q', 'z': 1}}), moves=['permute'], prefix='')]
+
     def gen(self, rng, tier):
         from ..gen_pipeline import gen_case
         out = []
@@ -192,13 +241,162 @@ class Rewrites(Suite):
         return d
 
 
+def object_order_class(violation, known):
+    """K2a: the only rewriting applied permuted mapping keys / keyword order inside a parameter object's arguments"""
+    return violation.get('suite') == 'rewritings' and violation.get('case', {}).get('moves') == ['permute-object-args']
+
+
+SEED_SCRIPT = r"""
+import json, sys
+from pathlib import Path
+from tcv import pipeline as pl
+from tcv.values import _module
+from tcv.suites_chain import CONSTRUCTION_ERRORS
+_module()
+case = json.loads(sys.stdin.read())
+with pl.workspace(case) as (d, mod):
+    try:
+        chain = pl.build_config(case, mod).chain()
+        print('KEYS ' + json.dumps({n: t.name_for_persistence for n, t in chain.tasks.items()}, sort_keys=True))
+    except CONSTRUCTION_ERRORS as e:
+        print('KEYS ' + json.dumps({'__construction_error__': type(e).__name__}))
+"""
+
+
+class ObjectArgOrder(Suite):
+    """parameter objects whose arguments contain mappings: the order in which the mapping was written must not
+    enter the text that is hashed (registry level, runtime check)"""
+    name = 'object_argument_order'
+    model = ''
+
+    def gen(self, rng, tier):
+        from ..values import rand_value
+        out = [dict(cls='AutoA', arg='a', value={'z': 1, 'b': 'q'}), dict(cls='AutoB', arg='x', value=[{'k': 1, 'j': [2]}]),
+               dict(cls='AutoA', arg='a', value=[1, 'x']), dict(cls='AutoA', arg='a', value={'only': {'one': 1}})]
+        for _ in range(6 if tier == 'quick' else 200):
+            out.append(dict(cls=rng.choice(['AutoA', 'AutoB']), arg=None, value=rand_value(rng, 3, False, False)))
+        for c in out:
+            c['arg'] = c['arg'] or ('a' if c['cls'] == 'AutoA' else 'x')
+            c['seed'] = rng.randrange(10 ** 6)
+        return out
+
+    def run_impl(self, case):
+        import random
+        from taskchain.parameter import Parameter, ParameterRegistry
+        from ..values import materialize
+        texts = []
+        for v in (case['value'], shuffle_value(random.Random(case['seed']), case['value'])):
+            reg = ParameterRegistry([Parameter('p')])
+            reg.set_values({'p': materialize({'__auto__': case['cls'], 'args': {case['arg']: v}})})
+            texts.append(reg.repr)
+        return dict(texts=texts)
+
+    def oracle(self, case, obs):
+        if 'unexpected_exception' in obs:
+            return f'unexpected exception {obs["unexpected_exception"]}: {obs["text"]}'
+        if obs['texts'][0] != obs['texts'][1]:
+            return (f'{case["cls"]}({case["arg"]}=...) with the mapping keys of the argument written in another order gives '
+                    f'another text: {obs["texts"][0]!r} vs {obs["texts"][1]!r}')
+        return None
+
+    def nontrivial(self, case, obs):
+        import random
+        return json.dumps(case['value']) != json.dumps(shuffle_value(random.Random(case['seed']), case['value']))
+
+    def key(self, case):
+        return repr(case)
+
+
+def object_arg_order_class(violation, known):
+    """K2a at registry level: the value handed to the object contains a mapping with two or more keys"""
+    def multi(v):
+        if isinstance(v, list):
+            return any(multi(x) for x in v)
+        if isinstance(v, dict):
+            return len(v) >= 2 or any(multi(x) for x in v.values())
+        return False
+    return violation.get('suite') == 'object_argument_order' and multi(violation.get('case', {}).get('value'))
+
+
+class HashSeeds(Suite):
+    """the same configuration built by fresh interpreters under different PYTHONHASHSEED values: every key must be
+    the same in all of them (runtime matter: the hash seed is not in the model)"""
+    name = 'fresh_interpreters'
+    model = ''
+
+    def corpus(self):
+        from ..suites_chain import K, P
+        cls = [dict(K(0, 'Src', params=[P('sel'), P('x')]), name='src'), dict(K(1, 'Dst', meta_inputs=[{'cls': 0}]), name='dst')]
+        mk = lambda sel: dict(classes=cls, files={}, context=None,
+                              base={'name': 'm', 'data': {'tasks': ['@M.*'], 'sel': sel, 'x': {'b': [1, 2], 'a': 'é'}}})
+        return [dict(case=mk({'__auto__': 'AutoS', 'args': {'tags': ['alpha', 'beta', 'gamma', 'delta']}}), seeds=[1, 2, 3]),
+                dict(case=mk({'__auto__': 'AutoA', 'args': {'a': ['alpha', 'beta'], 'b': {'k': 1, 'j': 2}}}), seeds=[1, 2]),
+                dict(case=mk(['alpha', {'z': 1, 'y': [2.5, None]}]), seeds=[1, 2])]
+
+    def gen(self, rng, tier):
+        from ..gen_pipeline import gen_case
+        out = []
+        n = 1 if tier == 'quick' else 25
+        while len(out) < n:
+            c = gen_case(rng)
+            if 'global_vars' in c:
+                continue
+            out.append(dict(case=c, seeds=rng.sample(range(1, 1000), 2)))
+        return out
+
+    def run_impl(self, pair):
+        res = {}
+        for seed in pair['seeds']:
+            env = dict(os.environ, PYTHONHASHSEED=str(seed))
+            p = subprocess.run([sys.executable, '-c', SEED_SCRIPT], input=json.dumps(pair['case']), env=env,
+                               capture_output=True, text=True, timeout=120)
+            line = next((l for l in p.stdout.splitlines() if l.startswith('KEYS ')), None)
+            res[str(seed)] = json.loads(line[5:]) if line else dict(error=(p.stderr or '')[-200:].strip().splitlines()[-1:] or ['?'])
+        return dict(by_seed=res)
+
+    def oracle(self, pair, obs):
+        if 'unexpected_exception' in obs:
+            return f'unexpected exception {obs["unexpected_exception"]}: {obs["text"]}'
+        runs = list(obs['by_seed'].items())
+        if any('error' in r for _, r in runs):
+            return f'the fresh interpreter could not run the case: {runs}'
+        s0, k0 = runs[0]
+        for s, k in runs[1:]:
+            for n in k0:
+                if k.get(n) != k0[n]:
+                    return (f'the key of {n} is {k0[n]} under PYTHONHASHSEED={s0} and {k.get(n)} under PYTHONHASHSEED={s} '
+                            f'for the same configuration')
+        return None
+
+    def nontrivial(self, pair, obs):
+        return all('error' not in r and '__construction_error__' not in r for r in obs.get('by_seed', {}).values())
+
+    def key(self, pair):
+        return repr(pair)
+
+
+def has_set_attribute(v):
+    if isinstance(v, list):
+        return any(has_set_attribute(x) for x in v)
+    if isinstance(v, dict):
+        if v.get('__auto__') == 'AutoS' and len(set(v['args'].get('tags', []))) >= 2:
+            return True
+        return any(has_set_attribute(x) for x in v.values())
+    return False
+
+
+def hash_seed_class(violation, known):
+    """K2b: a parameter object that keeps a SET of strings as an attribute - its repr follows the hash seed"""
+    return violation.get('suite') == 'fresh_interpreters' and has_set_attribute(violation.get('case', {}).get('case', {}))
+
+
 class C02(Prop):
     pid = 'C02'
-    suites = [Rewrites(), Registry()]
-    trusted_base = ['interpreter hash seed is not in the model (partial): keys of set-valued object attributes are '
-                    'outside the value grammar']
-    assumptions = ['values are JSON-like or objects rendered by their own repr; AutoParameterObject arguments that '
-                   'are mappings are excluded (known finding K2)']
+    suites = [Rewrites(), Registry(), ObjectArgOrder(), HashSeeds()]
+    known_classes = {'object-argument-order': object_order_class, 'object-argument-order-registry': object_arg_order_class,
+                     'hash-seed-set-attribute': hash_seed_class}
+    trusted_base = ['the interpreter hash seed is not in the model (partial): it is exercised by fresh interpreters only']
+    assumptions = ['values are JSON-like or objects rendered by their own repr']
 
 
 PROP = C02()
